@@ -11,7 +11,14 @@ import (
 	"bufio"
 	"bytes"
 	"context"
+	"crypto/ecdsa"
+	"crypto/elliptic"
+	"crypto/rand"
 	"crypto/sha256"
+	"crypto/tls"
+	"crypto/x509"
+	"crypto/x509/pkix"
+	"math/big"
 	"encoding/hex"
 	"encoding/json"
 	"errors"
@@ -127,6 +134,9 @@ type vhpxClusterSpec struct {
 	// ViaAgent: every upstream is a real piko agent reverse proxy (agent/reverseproxy.Server) in front of the scripted
 	// service, as with `piko agent http`: client -> node(s) -> agent -> service
 	ViaAgent  bool           `json:"via_agent"`
+	// TLS: every node's proxy port speaks TLS with its OWN certificate (valid for its own loopback address 127.0.0.<i+2> only,
+	// one CA for all); nodes reach each other with the client configuration server.NewServer hands to the manager
+	TLS  bool `json:"tls"`
 	Auth      bool           `json:"auth"` // the proxy ports verify HS256 tokens (secret vhpxSecret); requests carry token_eps
 	AgentIdle int            `json:"agent_idle"` // the agents' http-client max-idle-conns (0 = the harness default: unlimited)
 	ID        string         `json:"id"`
@@ -302,6 +312,7 @@ type vhpxCluster struct {
 
 	mu        sync.Mutex
 	known     map[string]bool
+	clientTLS *tls.Config
 	bursts    map[string]int
 	specs     map[string]*vhpxRespSpec
 	inv       map[string][]int
@@ -331,6 +342,60 @@ func (c *vhpxCluster) guard(where string) {
 	if r := recover(); r != nil {
 		c.setPanic(fmt.Sprintf("%s: %v", where, r))
 	}
+}
+
+type vhpxCA struct {
+	cert *x509.Certificate
+	key  *ecdsa.PrivateKey
+	pool *x509.CertPool
+}
+
+func vhpxNewCA() *vhpxCA {
+	key, err := ecdsa.GenerateKey(elliptic.P256(), rand.Reader)
+	if err != nil {
+		panic(err)
+	}
+	tmpl := &x509.Certificate{SerialNumber: big.NewInt(1), Subject: pkix.Name{CommonName: "vhpx-ca"}, NotBefore: time.Now().Add(-time.Hour),
+		NotAfter: time.Now().Add(24 * time.Hour), IsCA: true, KeyUsage: x509.KeyUsageCertSign | x509.KeyUsageDigitalSignature, BasicConstraintsValid: true}
+	der, err := x509.CreateCertificate(rand.Reader, tmpl, tmpl, &key.PublicKey, key)
+	if err != nil {
+		panic(err)
+	}
+	cert, _ := x509.ParseCertificate(der)
+	pool := x509.NewCertPool()
+	pool.AddCert(cert)
+	return &vhpxCA{cert: cert, key: key, pool: pool}
+}
+
+// serverConfig: a certificate valid for exactly this IP address
+func (ca *vhpxCA) serverConfig(ip net.IP, serial int64) *tls.Config {
+	key, err := ecdsa.GenerateKey(elliptic.P256(), rand.Reader)
+	if err != nil {
+		panic(err)
+	}
+	tmpl := &x509.Certificate{SerialNumber: big.NewInt(serial), Subject: pkix.Name{CommonName: ip.String()}, NotBefore: time.Now().Add(-time.Hour),
+		NotAfter: time.Now().Add(24 * time.Hour), KeyUsage: x509.KeyUsageDigitalSignature, ExtKeyUsage: []x509.ExtKeyUsage{x509.ExtKeyUsageServerAuth},
+		IPAddresses: []net.IP{ip}}
+	der, err := x509.CreateCertificate(rand.Reader, tmpl, ca.cert, &key.PublicKey, ca.key)
+	if err != nil {
+		panic(err)
+	}
+	return &tls.Config{Certificates: []tls.Certificate{{Certificate: [][]byte{der}, PrivateKey: key}}}
+}
+
+func (c *vhpxCluster) listenOn(ip string) net.Listener {
+	ln, err := net.Listen("tcp", ip+":0")
+	if err != nil {
+		panic("vhpx: listen: " + err.Error())
+	}
+	c.mu.Lock()
+	c.listeners = append(c.listeners, ln)
+	torn := c.torn
+	c.mu.Unlock()
+	if torn {
+		ln.Close()
+	}
+	return ln
 }
 
 func (c *vhpxCluster) listen() net.Listener {
@@ -709,8 +774,20 @@ func (c *vhpxCluster) run() {
 
 	nodeLns := make([]net.Listener, n)
 	addrs := make([]string, n)
+	var ca *vhpxCA
+	serverTLS := make([]*tls.Config, n)
+	if spec.TLS {
+		ca = vhpxNewCA()
+		c.clientTLS = &tls.Config{RootCAs: ca.pool}
+	}
 	for i := range spec.Nodes {
-		nodeLns[i] = c.listen()
+		if spec.TLS {
+			ip := fmt.Sprintf("127.0.0.%d", i+2)
+			nodeLns[i] = c.listenOn(ip)
+			serverTLS[i] = ca.serverConfig(net.ParseIP(ip), int64(i+2))
+		} else {
+			nodeLns[i] = c.listen()
+		}
 		addrs[i] = nodeLns[i].Addr().String()
 	}
 	c.mu.Lock()
@@ -731,7 +808,12 @@ func (c *vhpxCluster) run() {
 			AdminAddr: "127.0.0.1:0",
 		}, log.NewNopLogger())
 		states[i] = st
-		mgr := upstream.NewLoadBalancedManager(st, nil)
+		var nodeClientTLS *tls.Config
+		if spec.TLS {
+			// ONE client configuration per node for all its peers, as server.NewServer builds it
+			nodeClientTLS = &tls.Config{RootCAs: ca.pool}
+		}
+		mgr := upstream.NewLoadBalancedManager(st, nodeClientTLS)
 
 		conf := config.Default().Proxy
 		conf.Timeout = time.Duration(spec.TimeoutMs) * time.Millisecond
@@ -747,7 +829,7 @@ func (c *vhpxCluster) run() {
 		if spec.Auth {
 			verifier = auth.NewMultiTenantVerifier(auth.NewJWTVerifier(&auth.LoadedConfig{HMACSecretKey: []byte(vhpxSecret)}), nil)
 		}
-		srv := NewServer(mgr, conf, nil, verifier, nil, log.NewNopLogger())
+		srv := NewServer(mgr, conf, nil, verifier, serverTLS[i], log.NewNopLogger())
 		srv.httpServer.Handler = &vhpxCounting{c: c, idx: i, next: srv.httpServer.Handler}
 		c.mu.Lock()
 		c.servers = append(c.servers, srv)
@@ -943,6 +1025,18 @@ func (c *vhpxCluster) doHTTP(addr string, rq *vhpxReqSpec, key string, out *vhpx
 	if err != nil {
 		out.Err = "dial: " + err.Error()
 		return
+	}
+	if c.clientTLS != nil {
+		host, _, _ := net.SplitHostPort(addr)
+		cfg := c.clientTLS.Clone()
+		cfg.ServerName = host
+		tc := tls.Client(conn, cfg)
+		if err := tc.Handshake(); err != nil {
+			out.Err = "tls handshake: " + err.Error()
+			conn.Close()
+			return
+		}
+		conn = tc
 	}
 	defer conn.Close()
 	_ = conn.SetDeadline(time.Now().Add(vhpxReqDeadline))
